@@ -119,6 +119,30 @@ def record_system(spec):
             add(np.sqrt(np.asarray(r2.Gyy) * (1 - np.asarray(r2.coh))), "siso", "Gyy(1-coh)")
             _, a = systems.SISO_optimal_spectral_analysis(X[0], y, fs, **kw)
             add(a, "same", "siso_helper")
+        # the same inputs in other units / number formats: nano-units (input power 1e18 below the output's), and integer
+        # samples (ADC counts: inputs * 1000 rounded to int64, the output stays a float record)
+        Xn = [x * 1e-9 for x in X]
+        Xi = [np.round(x * 1000.0).astype(np.int64) for x in X]
+        for label, fn in (("analytic", systems.MISO_analytic_optimal_spectral_analysis), ("numeric", systems.MISO_numeric_optimal_spectral_analysis)):
+            if label == "analytic" and q > 3:
+                continue
+            _, a = fn(Xn, y, fs, **kw)
+            add(a, "same", "nano_unit_inputs_" + label)
+            _, a = fn(Xi, y, fs, **kw)
+            _, a0 = fn([x.astype(np.float64) for x in Xi], y, fs, **kw)          # the same numbers as float64 samples
+            for j in range(nf):
+                ev.append({"v": "integer_inputs_" + label, "j": j + 1, "K": K[j], "kind": "pair",
+                           "r": traces.q(float(a[j]) ** 2 / float(gyy[j])) if gyy[j] > 0 else 0, "r0": traces.q(float(a0[j]) ** 2 / float(gyy[j])) if gyy[j] > 0 else 0})
+        if q == 1:
+            _, a = systems.SISO_optimal_spectral_analysis(Xn[0], y, fs, **kw)
+            add(a, "same", "siso_helper_nano_unit_input")
+            _, a = systems.SISO_optimal_spectral_analysis(Xi[0], y, fs, **kw)
+            _, a0 = systems.SISO_optimal_spectral_analysis(Xi[0].astype(np.float64), y, fs, **kw)
+            for j in range(nf):
+                ev.append({"v": "siso_helper_integer_input", "j": j + 1, "K": K[j], "kind": "pair",
+                           "r": traces.q(float(a[j]) ** 2 / float(gyy[j])) if gyy[j] > 0 else 0, "r0": traces.q(float(a0[j]) ** 2 / float(gyy[j])) if gyy[j] > 0 else 0})
+            r3 = speckit.compute_spectrum(np.vstack([Xn[0], y]), fs, **kw)
+            add(np.asarray(r3.GyySx) ** 0.5, "same", "GyySx_nano_unit_input")
         yz = sum(gains[i] * X[i] for i in range(q))               # exact static combination
         S0z = speckit.compute_spectrum(yz, fs, **kw)
         gz = np.asarray(S0z.Gxx)
